@@ -212,13 +212,18 @@ class VList(V):
 
 class VSeq(V):
     """functional sequence (spec mode): length term + python function index-term -> V"""
-    __slots__ = ('len', 'get', 'elem', 'kind')
+    __slots__ = ('len', 'get', 'elem', 'kind', 'inner')
 
-    def __init__(self, length, get, elem=None, kind=None):
+    def __init__(self, length, get, elem=None, kind=None, inner=None):
         self.len = length
         self.get = get
         self.elem = elem if elem is not None else INT
         self.kind = kind    # Int term or None
+        self.inner = inner  # z3 array term when the sequence is backed by one (event arguments)
+
+
+class VTrace(V):
+    """the ghost trace of call-outs: a sequence of events indexed by position"""
 
 
 class VTable(V):
@@ -537,6 +542,54 @@ import os as _os
 FULL_PRUNE = _os.environ.get('PYVC_FULL_PRUNE', '0') == '1'
 
 
+def term_size(t, limit=10 ** 9):
+    """number of distinct sub-terms (stops counting at limit)"""
+    seen = set()
+    stack = [t]
+    n = 0
+    while stack and n < limit:
+        x = stack.pop()
+        i = x.get_id()
+        if i in seen:
+            continue
+        seen.add(i)
+        n += 1
+        if z3.is_quantifier(x):
+            stack.append(x.body())
+        else:
+            stack.extend(x.children())
+    return n
+
+
+_UQCACHE = {}
+
+
+def has_user_quantifier(f):
+    """contains a quantifier introduced by a contract clause (forall / exists / keys_forall: bound names q!...)"""
+    i = f.get_id()
+    r = _UQCACHE.get(i)
+    if r is not None:
+        return r[0]
+    seen = set()
+    stack = [f]
+    found = False
+    while stack:
+        t = stack.pop()
+        ti = t.get_id()
+        if ti in seen:
+            continue
+        seen.add(ti)
+        if z3.is_quantifier(t):
+            if any(t.var_name(k).startswith('q!') for k in range(t.num_vars())):
+                found = True
+                break
+            stack.append(t.body())
+            continue
+        stack.extend(t.children())
+    _UQCACHE[i] = (found, f)
+    return found
+
+
 class SolverStack:
     """feasibility pruning: a quantifier-free approximation of the path condition first (fast, sound for
     'unsat'), the full path condition with a short budget second"""
@@ -714,7 +767,7 @@ class State:
         kind 'ref': every stored reference denotes an object allocated before the array was (re)created;
         kind 'len': lengths are non-negative"""
         arr = self.H.get(name)
-        if arr is None:
+        if arr is None or name.startswith('T:'):
             return
         base = self.base_const(arr)
         mi = self.merge_info.get(base.get_id())
@@ -760,16 +813,14 @@ class State:
                                  patterns=[z3.Select(base, r)]))
 
     def trace_wf(self):
-        """the ghost trace holds only events, all of them allocated earlier"""
-        er = self.H.get('ER')
-        if er is None:
-            er = self.harr('ER', z3.ArraySort(z3.IntSort(), z3.IntSort()))
-        i = z3.Int('tw!i')
-        tr = z3.simplify(z3.Select(er, z3.IntVal(600000)))
-        if not (z3.is_app(tr) and tr.decl().kind() == z3.Z3_OP_SELECT) and not z3.is_const(tr):
-            return
-        bound = self.next_ref if er.get_id() != self.H0.get('ER', er).get_id() else z3.IntVal(PARAM_REF_BASE)
-        self.pc.append(z3.ForAll([i], z3.And(z3.Select(tr, i) > 0, z3.Select(tr, i) < bound), patterns=[z3.Select(tr, i)]))
+        pass
+
+    def tlen(self):
+        """current length of the ghost trace"""
+        return self.hget_in(self.cur_heap(), 'T:len', z3.IntSort(), z3.IntVal(0))
+
+    def set_tlen(self, t):
+        self.hset('T:len', z3.IntSort(), z3.IntVal(0), t)
 
     def pc_fact(self, f):
         if self.bound_vars:
